@@ -1,0 +1,284 @@
+//go:build verif && linux && !poll_opt
+
+package core
+
+import (
+	"context"
+	"net"
+	"sync"
+	"time"
+
+	"github.com/petar/GoLLRB/llrb"
+	"golang.org/x/sys/unix"
+
+	"rcproxy/core/codec"
+	"rcproxy/core/internal/netpoll"
+	bsPool "rcproxy/core/pkg/pool/byteslice"
+)
+
+// VerifLoop is the production engine/eventloop/Engine object graph that serve() builds, with a
+// real poller, but without the Polling goroutine: the harness calls the functions the loop
+// would call (read, write, task round, close, ticker, timeout scan) one event at a time on
+// socketpair file descriptors. Add-only; compiled only with -tags verif.
+type VerifLoop struct {
+	eng *engine
+	el  *eventloop
+}
+
+// VerifNewLoop mirrors Run()+serve()+engine.start() up to (not including) startEventLoop.
+func VerifNewLoop(h EventHandler, opts ...Option) (*VerifLoop, error) {
+	options := loadOptions(opts...)
+	options.ReadBufferCap = MaxStreamBufferCap
+	options.WriteBufferCap = MaxStreamBufferCap
+	if options.RedisMsgMaxLength < 1 {
+		options.RedisMsgMaxLength = 6 * 1024 * 1024
+	}
+	if options.RedisServerConnections < 1 {
+		options.RedisServerConnections = 1
+	}
+	if options.RedisConnectionTimeout < 1 {
+		options.RedisConnectionTimeout = 200
+	}
+	eng := new(engine)
+	eng.opts = options
+	eng.eventHandler = h
+	eng.cond = sync.NewCond(&sync.Mutex{})
+	e := Engine{
+		eng:         eng,
+		ProxyPool:   make(map[string]*Pool),
+		cCodec:      CRespCodec{options.RedisMsgMaxLength},
+		sCodec:      SRespCodec{options.RedisMsgMaxLength},
+		clusterChan: make(chan []byte, 3),
+		ClusterNodes: ClusterNodes{
+			redisAddrs:   options.RedisServers,
+			passwd:       options.RedisPasswd,
+			redisWrapper: new(redisWrapper),
+		},
+	}
+	h.OnBoot(e)
+	EngineGlobal = &e
+	p, err := netpoll.OpenPoller()
+	if err != nil {
+		return nil, err
+	}
+	el := new(eventloop)
+	el.ln = &listener{fd: -1}
+	el.engine = eng
+	el.poller = p
+	el.buffer = make([]byte, options.ReadBufferCap)
+	el.connections = make(map[int]*conn)
+	el.eventHandler = h
+	eng.el = el
+	timeoutTree = llrb.New()
+	return &VerifLoop{eng, el}, nil
+}
+
+// Shutdown closes every connection and the poller.
+func (v *VerifLoop) Shutdown() {
+	for _, p := range EngineGlobal.ProxyPool {
+		p.closed = true
+		if p.cancel != nil {
+			p.cancel()
+		}
+	}
+	v.el.closeAllSockets()
+	_ = v.el.poller.Close()
+}
+
+// AddPool registers a backend pool without starting its health-monitor goroutine; dial is
+// the harness dialer (Pool.Dial is an exported field in production too).
+func (v *VerifLoop) AddPool(addr string, isSlave bool, dial func(addr string, isSlave bool) (SConn, error)) *Pool {
+	ctx, cancel := context.WithCancel(context.Background())
+	p := &Pool{
+		Addr:      addr,
+		Passwd:    v.eng.opts.RedisPasswd,
+		Dial:      dial,
+		isSlave:   isSlave,
+		maxActive: v.eng.opts.RedisServerConnections,
+		ctx:       ctx,
+		cancel:    cancel,
+	}
+	EngineGlobal.ProxyPool[addr] = p
+	EngineGlobal.ProxyAddrs = append(EngineGlobal.ProxyAddrs, addr)
+	return p
+}
+
+// VerifReplicaset describes one master with its replicas and slot ranges.
+type VerifReplicaset struct {
+	Master string
+	Slaves []string
+	Ranges [][2]int32
+}
+
+// SetSlots installs a slot table directly (what ticker() does from ClusterNodes.Replicasets).
+func (v *VerifLoop) SetSlots(sets []VerifReplicaset) {
+	EngineGlobal.Slots2Node.Reset()
+	for _, s := range sets {
+		rs := &replicaset{Master: &ClusterNode{Addr: s.Master, Role: Master}}
+		for _, a := range s.Slaves {
+			rs.Slaves = append(rs.Slaves, &ClusterNode{Addr: a, Role: Slave})
+		}
+		for _, r := range s.Ranges {
+			rs.Master.Slots = append(rs.Master.Slots, Slots{r[0], r[1]})
+			for i := r[0]; i <= r[1]; i++ {
+				EngineGlobal.Slots2Node.Set(i, rs)
+			}
+		}
+	}
+}
+
+func verifTCPAddr(ip string, port int) *net.TCPAddr {
+	b := bsPool.Get(16)
+	copy(b, net.ParseIP(ip).To16())
+	return &net.TCPAddr{IP: b, Port: port}
+}
+
+// Accept registers fd as a freshly accepted client connection (the tail of eventloop.accept).
+func (v *VerifLoop) Accept(fd int, ip string, port int) error {
+	if err := unix.SetNonblock(fd, true); err != nil {
+		return err
+	}
+	el := v.el
+	c := newTCPConn(fd, el, el.ln.addr, verifTCPAddr(ip, port), ConnClient, Initialized, false)
+	if err := el.poller.AddRead(c.pollAttachment); err != nil {
+		return err
+	}
+	el.connections[c.fd] = c
+	return el.open(c)
+}
+
+// DialFD registers fd as a freshly dialled backend connection (the tail of engine.Dial).
+func (v *VerifLoop) DialFD(fd int, ip string, port int, isSlave bool) (SConn, error) {
+	if err := unix.SetNonblock(fd, true); err != nil {
+		return nil, err
+	}
+	eng := v.eng
+	var initStatus InitializeStatus
+	if len(eng.opts.RedisPasswd) > 0 {
+		initStatus = InitializeNone
+	} else {
+		initStatus = Initialized
+	}
+	gc := newTCPConn(fd, eng.el, verifTCPAddr("127.0.0.1", 1), verifTCPAddr(ip, port), ConnServer, initStatus, isSlave)
+	if err := eng.el.poller.AddRead(gc.pollAttachment); err != nil {
+		_ = unix.Close(gc.fd)
+		gc.releaseTCP()
+		return nil, err
+	}
+	eng.el.connections[gc.fd] = gc
+	if err := eng.el.open(gc); err != nil {
+		return nil, err
+	}
+	return gc, nil
+}
+
+// Read is one readable event on fd (eventloop.read -> cread / sread).
+func (v *VerifLoop) Read(fd int) error {
+	c, ok := v.el.connections[fd]
+	if !ok {
+		return nil
+	}
+	return v.el.read(c)
+}
+
+// Writable is one writable event on fd (the EPOLLOUT half of eventloop.callback).
+func (v *VerifLoop) Writable(fd int) error {
+	c, ok := v.el.connections[fd]
+	if !ok || c.outboundBuffer.IsEmpty() {
+		return nil
+	}
+	return v.el.write(c)
+}
+
+// CloseFD closes the connection the way the loop does when the peer hangs up.
+func (v *VerifLoop) CloseFD(fd int) error {
+	c, ok := v.el.connections[fd]
+	if !ok {
+		return nil
+	}
+	return v.el.closeConn(c, nil, ConnEof)
+}
+
+// RunTasks is one "doChores" round of Polling.
+func (v *VerifLoop) RunTasks(max int) (int, error) { return v.el.poller.VerifRunAsync(max) }
+
+// TasksPending reports whether asynchronous tasks are queued.
+func (v *VerifLoop) TasksPending() bool { return v.el.poller.VerifPending() }
+
+// Tick runs eventloop.ticker() with its one-second throttle reset.
+func (v *VerifLoop) Tick() {
+	v.el.nextTicker = time.Time{}
+	v.el.ticker()
+	// pools created by ticker() start a health-monitor goroutine; stop it, the harness has no
+	// real nodes to probe
+	for _, p := range EngineGlobal.ProxyPool {
+		if p.cancel != nil {
+			p.cancel()
+		}
+	}
+}
+
+// MsgTimeout runs eventloop.msgTimeout().
+func (v *VerifLoop) MsgTimeout() { v.el.msgTimeout() }
+
+// VerifConnState is a read-only view of one connection.
+type VerifConnState struct {
+	Fd       int
+	Client   bool
+	Opened   bool
+	InMsgs   int
+	InFrags  int
+	OutFrags int
+	Inbound  int
+	Outbound int
+	MsgDone  []bool
+}
+
+// Snapshot returns the state of every registered connection, sorted by nothing (a map).
+func (v *VerifLoop) Snapshot() map[int]VerifConnState {
+	out := make(map[int]VerifConnState)
+	for fd, c := range v.el.connections {
+		s := VerifConnState{Fd: fd, Client: c.connType == ConnClient, Opened: c.opened,
+			Inbound: c.InboundBuffered(), Outbound: c.OutboundBuffered()}
+		if c.inMsgQueue != nil {
+			s.InMsgs = c.inMsgQueue.count
+			for m := c.inMsgQueue.head; m != nil; m = m.prev {
+				s.MsgDone = append(s.MsgDone, m.Done)
+			}
+		}
+		if c.inFragQueue != nil {
+			s.InFrags = c.inFragQueue.count
+		}
+		if c.outFragQueue != nil {
+			s.OutFrags = c.outFragQueue.count
+		}
+		out[fd] = s
+	}
+	return out
+}
+
+// IsOpen reports whether fd is still a registered, opened connection.
+func (v *VerifLoop) IsOpen(fd int) bool {
+	c, ok := v.el.connections[fd]
+	return ok && c.opened
+}
+
+// TimeoutQueueLen is the size of the request-timeout tree.
+func (v *VerifLoop) TimeoutQueueLen() int { return timeoutTree.Len() }
+
+// ErrName maps the sentinel errors of the codecs to stable names.
+func VerifErrName(err error) string {
+	switch err {
+	case nil:
+		return "nil"
+	case codec.ErrInvalidResp:
+		return "invalid"
+	case codec.Continue:
+		return "continue"
+	case codec.MovedOrAsk:
+		return "moved-or-ask"
+	case codec.ErrUnKnown:
+		return "unknown"
+	}
+	return "other:" + err.Error()
+}
